@@ -316,6 +316,16 @@ func genCacheEvents(t *rapid.T, c *CacheCase, nev int) {
 				// deletion requests may refer to any non-deletion event (earlier or
 				// later) and to EARLIER deletion requests (keeps resolution finite)
 				r.Target = rapid.IntRange(0, nev-1).Draw(t, "target")
+				if e.Kind == 5 && j == 0 && nrefs > 1 && rapid.IntRange(0, 3).Draw(t, "delofdel") == 0 {
+					// a request that deletes an earlier request and, further back in
+					// its tags, something else
+					for k := len(c.Events) - 1; k >= 0; k-- {
+						if c.Events[k].Kind == 5 {
+							r.Target = k
+							break
+						}
+					}
+				}
 			}
 			e.Refs = append(e.Refs, r)
 		}
